@@ -26,7 +26,7 @@ MIX = {
     'C04': [('quota', 3), ('exact', 3), ('random', 2), ('tie', 1)],
     'C05': [('coalition', 4), ('random', 2)],
     'C06': [('chain', 3), ('random', 3), ('quota', 1)],
-    'C07': [('tie', 3), ('prior', 2), ('random', 2), ('quota', 1), ('bullet', 1)],
+    'C07': [('tie', 3), ('prior', 2), ('random', 2), ('quota', 1), ('bullet', 1), ('coalition', 1)],
     'C08': [('random', 4), ('tie', 1), ('quota', 1)],
     'C09': [('random', 4), ('tie', 1), ('coalition', 1), ('bullet', 2), ('exact', 1)],
     'C18': [('random', 4), ('tie', 1), ('quota', 1)],
@@ -251,6 +251,19 @@ def configs_for(rule, rng, shape, all_=False):
     return [(dict(rule=rule), (2, None, None))]
 
 
+def liveness_stage(R, tier):
+    "C01 termination as a temporal property: FairSpec => (counting ~> done), no state constraint"
+    res = model.mc_run(model_configs(), nc=3, maxb=3 if tier == 'quick' else 4, maxm=1 if tier == 'quick' else 2, seatset=(1, 2), check=[], liveness=True,
+                       timeout=900 if tier == 'quick' else 3000)
+    R.add_tlc(res)
+    bad = 'Temporal properties were violated' in res['out'] or 'is violated' in res['out']
+    R.stage('liveness: FairSpec => Terminates', distinct_states=res['distinct'], wall_s=round(res['wall'], 1), violated=bad)
+    if bad:
+        raise vlib.Machinery('SPEC-DIVERGENCE or design defect: Terminates violated in Droop.tla:\n' + res['out'][-2500:])
+    if 'Error:' in res['out']:
+        raise vlib.Machinery('TLC error (liveness):\n' + res['out'][-2500:])
+
+
 def check_counts(prop, tier):
     R = vlib.Result(prop, tier)
     rng = random.Random(vlib.seed() * 1000003 + int(prop[1:]))
@@ -258,6 +271,8 @@ def check_counts(prop, tier):
     rules = RULESET.get(prop, drive.RULES)
     nprof = NPROFILES[tier]
     model_stage(R, prop, tier, rules=rules, export_mod=(97 if tier == 'quick' else 29), known=known)
+    if prop == 'C01':
+        liveness_stage(R, tier)
     traces, meta = [], {}
     hist = collections.Counter()
     byrule = collections.Counter()
@@ -541,7 +556,15 @@ def check_arith(prop, tier):
 
 
 def num_model_stage(R, prop, tier):
-    pass
+    "(M) MCNum.tla: the specification's own arithmetic operators satisfy the laws of Num.tla on an operand grid"
+    cfg = 'INIT Init\nNEXT Next\nINVARIANT SlowAgrees\nINVARIANT SlowRelation\nINVARIANT FixedOps\nINVARIANT Comparisons\n'
+    res = vlib.tlc('MCNum', cfg, workers=16, heap_mb=2048, timeout=900)
+    R.add_tlc(res)
+    viol = re.search(r'Invariant (\w+) is violated', res['out'])
+    R.stage('model-check MCNum.tla (oracle arithmetic vs the laws)', distinct_states=res['distinct'], wall_s=round(res['wall'], 1),
+            invariant_violated=viol.group(1) if viol else None)
+    if viol or 'Error:' in res['out']:
+        raise vlib.Machinery('MCNum.tla: the specification arithmetic violates its own law (%s):\n%s' % (viol.group(1) if viol else 'error', res['out'][-2000:]))
 
 
 def check_pairs(prop, tier):
@@ -558,6 +581,7 @@ def check_pairs(prop, tier):
         pair_stage(R, prop, pairs.gen_c11(rng, 2 * n, drive.RULES), known)
         R.cov['rule'] = 'pairs (profile, profile with candidate ids permuted) -> FinalDiff; (profile with withdrawn, profile with them deleted) -> SameByName; all rules'
     elif prop == 'C13':
+        num_model_stage(R, prop, tier)
         arith_stage(R, prop, tier)
         pair_stage(R, prop, pairs.gen_c13b(rng, 2 * n), known)
         pair_stage(R, prop, pairs.gen_c13c(rng, 2 * n), known)
@@ -882,7 +906,8 @@ def check_blt(prop, tier):
     rng = random.Random(vlib.seed() * 1000003 + 1516)
     known = known_ids()
     fixed = sorted(e['id'] for e in vlib.load_known() if e.get('kind') == 'fixed' and e['id'] in ('F4', 'F5', 'F6', 'F7', 'F17'))
-    blt_model_stage(R, prop, tier, fixed)
+    if prop == 'C16' or tier == 'thorough':
+        blt_model_stage(R, prop, tier, fixed)
     recs, meta = [], {}
     rid = 0
     skipped = collections.Counter()
@@ -947,8 +972,37 @@ def check_blt(prop, tier):
     return R.finish()
 
 
+MC_ALPHA = ['0', '1', '2', '3', '-1', '-9', '1=2', '2=2', '[tie', '[withdrawn', '2]', '1]', '(a)', '(b', '"x"', '"y', 'z"', '#', '/*', '*/', 'q', '256']
+MC_BASES = ['2 1 2 1 2 0 1 2 0 0 "a" "b" "t"', '3 2 [tie 3 1 2] -3 (a) 1 2 0 (b) 2 0 0 "a" "b" "c" "t" "s"']
+
+
 def blt_model_stage(R, prop, tier, fixed):
-    pass
+    "(M) MCBlt.tla: totality and validity of the reader specification over all 1- and 2-word edits of base files"
+    import tempfile, shutil
+    alpha = MC_ALPHA if tier == 'thorough' else MC_ALPHA[:14] + ['"x"', '#', '/*', '*/']
+    words = []
+    for w in alpha + sorted(set(' '.join(MC_BASES).split()) - set(alpha)):
+        words.append(w)
+    feats = {w: blt.words_of(w)[0] for w in words}
+    idx = {w: i + 1 for i, w in enumerate(words)}
+    data = dict(alpha=[feats[w] for w in words], bases=[[idx[w] for w in b.split()] for b in (MC_BASES if tier == 'thorough' else MC_BASES[:1] + [MC_BASES[1]])])
+    tmp = tempfile.mkdtemp(prefix='vblt-')
+    try:
+        path = os.path.join(tmp, 'alpha.json')
+        json.dump(data, open(path, 'w'))
+        cfg = 'INIT Init\nNEXT Next\nINVARIANT Total\nINVARIANT AcceptedValid\nCONSTANTS\n FIXED = {%s}\n MAXY = %d\n' % (', '.join('"%s"' % x for x in fixed), 3 if tier == 'quick' else 99)
+        res = vlib.tlc('MCBlt', cfg, env={'ALPHA_FILE': path}, workers=16, heap_mb=3072, timeout=1500)
+    finally:
+        shutil.rmtree(tmp, ignore_errors=True)
+    R.add_tlc(res)
+    viol = re.search(r'Invariant (\w+) is violated', res['out'])
+    R.stage('model-check MCBlt.tla (reader specification total and valid over word edits)', distinct_states=res['distinct'], wall_s=round(res['wall'], 1),
+            alphabet=len(words), invariant_violated=viol.group(1) if viol else None)
+    if viol:
+        m = re.search(r't = (\[.*?\])\n', res['out'], re.S)
+        raise vlib.Machinery('MCBlt.tla: %s violated by the reader specification (a listed-and-unrepaired defect, or a specification error): %s' % (viol.group(1), m.group(1) if m else ''))
+    if 'Error:' in res['out']:
+        raise vlib.Machinery('TLC error in MCBlt.tla:\n' + res['out'][-2500:])
 
 
 COUNT_PROPS = ('C01', 'C02', 'C04', 'C05', 'C06', 'C07', 'C08', 'C09', 'C18')
